@@ -38,6 +38,7 @@ DB = ["t/x", [["string", "a"], ["string", "listb"]]]
 DC = ["t/y", [["string", "a"]]]
 DC2 = ["t/y", [["varint", "a"]]]
 DP = ["plain/z", [["varint", "n"], ["string", "s"]]]
+DZ = ["t/marker", []]
 DH = ["hold/one", [["record", "inner"], ["string", "tag"]]]
 DHL = ["hold/many", [["record[]", "inners"], ["string", "tag"]]]
 
@@ -55,8 +56,14 @@ def rec_of(kind, r):
         return ["rec", DC2, [V.I(r.randint(-5, 5))], m]
     if kind == "P":
         return ["rec", DP, [V.I(r.randint(0, 99)), t()], m]
+    if kind == "PF":
+        # a record of type plain/z that NO writer can serialise (text with a lone surrogate for the binary packer, an
+        # integer beyond the int-to-text limit for json.dumps): the write raises, the caller carries on
+        return ["rec", DP, [V.I(-1), V.S("\ud800")], m]      # run_real replaces n = -1 by 10**5000
+    if kind == "Z":
+        return ["rec", DZ, [], m]          # a record type without declared fields
     if kind == "H":
-        return ["rec", DH, [rec_of(r.choice(["A", "B", "C", "C2", "P"]), r), t()], m]
+        return ["rec", DH, [rec_of(r.choice(["A", "B", "C", "C2", "P", "Z"]), r), t()], m]
     if kind == "HL":
         inner = [rec_of(r.choice(["C", "C2", "P"]), r) for _ in range(r.randint(0, 3))]
         return ["rec", DHL, [["list", inner], t()], m]
@@ -70,7 +77,7 @@ def rec_of(kind, r):
     raise ValueError(kind)
 
 
-KINDS = ["A", "B", "C", "C2", "P", "H", "HL", "G"]
+KINDS = ["A", "B", "C", "C2", "P", "H", "HL", "G", "Z"]
 
 
 def EXHAUSTIVE(tier):
@@ -85,7 +92,16 @@ def gen_cases(rng, tier):
         nw = r.choice([1, 1, 2, 2, 3])
         ln = r.choice([1, 2, 3, 4, 6, 9, 14] if tier != "thorough" else [1, 2, 3, 5, 8, 14, 40, 120])
         hist = [[r.below(nw), rec_of(r.choice(KINDS), r)] for _ in range(ln)]
-        cases.append({"writers": nw, "history": hist})
+        case = {"writers": nw, "history": hist}
+        if r.chance(15):
+            # one write that fails (the record cannot be serialised), placed before / between good records of its type
+            w_ = r.below(nw)
+            pos = r.randint(0, len(hist))
+            hist.insert(pos, [w_, rec_of("PF", r)])
+            for _ in range(r.randint(1, 2)):
+                hist.insert(r.randint(pos + 1, len(hist)), [w_, rec_of("P", r)])
+            case["faulty"] = True
+        cases.append(case)
     if tier == "thorough":
         # exhaustive: all histories of length <= 4 over 5 kinds x 2 writers
         r2 = rng.fork("exh")
@@ -144,15 +160,20 @@ def run_real(case):
         warnings.simplefilter("ignore")
         nw = case["writers"]
         recs = [(w, V.build(s)) for w, s in case["history"]]
+        for _, rec in recs:
+            if getattr(rec, "s", None) == "\ud800" and getattr(rec, "n", None) == -1:
+                rec.n = 10 ** 5000           # beyond CPython's int-to-text limit: json.dumps raises ValueError
         created = [[] for _ in range(nw)]
-        for w, rec in recs:
-            created[w].append(rec)
-        out = {"bin": [], "json": []}
+        out = {"bin": [], "json": [], "failed": 0}
         # ---- binary writers, all open at the same time
         bufs = [io.BytesIO() for _ in range(nw)]
         ws = [RecordStreamWriter(b) for b in bufs]
         for w, rec in recs:
-            ws[w].write(rec)
+            try:
+                ws[w].write(rec)
+                created[w].append(rec)
+            except (UnicodeEncodeError, ValueError, OverflowError):
+                out["failed"] += 1          # an unserialisable record: the caller catches the error and carries on
         for i in range(nw):
             ws[i].flush()
             data = bufs[i].getvalue()
@@ -182,8 +203,11 @@ def run_real(case):
             jw = [JsonfileWriter(p) for p in paths]
             jcreated = [[] for _ in range(nw)]
             for w, rec in flat:
-                jw[w].write(rec)
-                jcreated[w].append(rec)
+                try:
+                    jw[w].write(rec)
+                    jcreated[w].append(rec)
+                except (UnicodeEncodeError, ValueError, OverflowError):
+                    out["failed"] += 1
             for i in range(nw):
                 jw[i].flush()
                 jw[i].close()
@@ -254,6 +278,8 @@ def oracle(case, obs):
 
 
 def model_op(case, obs):
+    if case.get("faulty"):
+        return None      # histories with a failing write: real-code oracle only (the model writer has no failing writes)
     return [{"op": "wire_write", "objs": w["pvs"]} for w in obs["bin"]]
 
 
